@@ -115,58 +115,30 @@ class CorralLearner(Learner):
     @staticmethod
     def _log_barrier_omd(ps, losses, etas) -> Sequence[float]:
 
-        f  = lambda l: float(sum( [ 1/((1/p) + eta*(loss-l)) for p, eta, loss in zip(ps, etas, losses)]))
-        df = lambda l: float(sum( [ eta/((1/p) + eta*(loss-l))**2 for p, eta, loss in zip(ps, etas, losses)]))
-
-        denom_zeros = [ ((-1/p)-(eta*loss))/-eta for p, eta, loss in zip(ps, etas, losses) ]
-
-        min_loss = min(losses)
-        max_loss = max(losses)
+        def update(l) -> Optional[Sequence[float]]:
+            #the new weights for the multiplier l (None if l is at or beyond a pole, where a weight stops being positive)
+            denoms = [ (1/p) + eta*(loss-l) for p, eta, loss in zip(ps, etas, losses) ]
+            return [ 1/d for d in denoms ] if min(denoms) > 0 else None
 
         precision = 4
 
-        def binary_search(l,r) -> Optional[float]:
-            #in theory the above check should guarantee this has a solution
-            while True:
+        #sum(update(l)) increases with l on [min(losses), first pole), is at most sum(ps) at min(losses) and is at
+        #least sum(ps) at max(losses) (or unbounded before a pole). The root of sum(update(l))==1 in this interval
+        #is the only one where every new weight is positive so we bisect here and always keep the valid left end.
+        l,r    = min(losses), max(losses)
+        new_ps = update(l)
 
-                x = (l+r)/2
-                y = f(x)
+        while round(sum(new_ps),precision) != 1:
 
-                if round(y,precision) == 1:
-                    return x
+            x = (l+r)/2
+            if x == l or x == r: break #[l,r] can't be split any further
 
-                if y < 1:
-                    l = x
+            x_ps = update(x)
 
-                if y > 1:
-                    r = x
+            if x_ps is None or sum(x_ps) > 1:
+                r = x
+            else:
+                l,new_ps = x,x_ps
 
-        def find_root_of_1():
-            brackets = list(sorted(filter(lambda z: min_loss <= z and z <= max_loss, set(denom_zeros + [min_loss, max_loss]))))
-
-            for l_brack, r_brack in zip(brackets[:-1], brackets[1:]):
-
-                if (f(l_brack+.00001)-1) * (f(r_brack-.00001)-1) >= 0:
-                    continue
-                else:
-                    # we use binary search because newtons
-                    # method can overshoot our objective
-                    return binary_search(l_brack, r_brack)
-
-        if min_loss == max_loss:
-            lmbda = min_loss
-        elif min_loss not in denom_zeros and round(f(min_loss),precision) == 1:
-            lmbda = min_loss
-        elif max_loss not in denom_zeros and round(f(max_loss),precision) == 1:
-            lmbda = max_loss
-        else:
-            lmbda = find_root_of_1()
-
-        if lmbda is None:
-            raise Exception(f'Something went wrong in Corral OMD {ps}, {etas}, {losses}')
-
-        new_ps = [ 1/((1/p) + eta*(loss-lmbda)) for p, eta, loss in zip(ps, etas, losses)]
-
-        assert round(sum(new_ps),precision) == 1, "An invalid update was made by the log barrier in Corral"
-
-        return new_ps
+        total = sum(new_ps)
+        return [ p/total for p in new_ps ]
